@@ -93,6 +93,26 @@ fn main() {
                 run_grammar(&g, &inputs, &mut w, id);
             }
         }
+        // the shapes the optimizer passes rewrite, in rules of every modifier, with trivia
+        "opt" => {
+            let count = arg_u64(2, 200); let mut rng = Rng::new(arg_u64(3, 0)); let maxlen = arg_u64(4, 4) as usize;
+            let inputs = all_strings(&["x", "y", " ", "#"], maxlen);
+            for id in 0..count {
+                let g = gen_opt_grammar(&mut rng);
+                run_grammar(&g, &inputs, &mut w, id);
+            }
+        }
+        // random grammars on inputs with characters of every UTF-8 width (ANY, ranges, built-ins, skip-until over wide text)
+        "wide" => {
+            let count = arg_u64(2, 200); let mut rng = Rng::new(arg_u64(3, 0)); let maxlen = arg_u64(4, 3) as usize;
+            let inputs = all_strings(&["x", "é", "€", "😀", "\u{10ffff}"], maxlen);
+            for id in 0..count {
+                let g = if rng.chance(1, 3) { gen_skip_grammar(&mut rng) } else {
+                    let cfg = GenCfg { stack: rng.chance(1, 4), extras, counts: false, builtins: rng.chance(1, 2) };
+                    gen_grammar(&mut rng, &cfg) };
+                run_grammar(&g, &inputs, &mut w, id);
+            }
+        }
         // one GRAMMAR_TEXT INPUT...: a hand-written grammar in pest syntax (the AST is taken from the real reader)
         "one" => {
             let text = arg(2);
@@ -102,7 +122,7 @@ fn main() {
             let inputs: Vec<String> = std::env::args().skip(3).collect();
             run_grammar(&g, &inputs, &mut w, 0);
         }
-        _ => { eprintln!("usage: c01 random COUNT SEED [MAXLEN] [nostack] | stack COUNT SEED [MAXLEN] | skip COUNT SEED [MAXLEN] | one GRAMMAR INPUT.."); std::process::exit(2); }
+        _ => { eprintln!("usage: c01 random COUNT SEED [MAXLEN] [nostack] | stack COUNT SEED [MAXLEN] | skip COUNT SEED [MAXLEN] | opt COUNT SEED [MAXLEN] | wide COUNT SEED [MAXLEN] | one GRAMMAR INPUT.."); std::process::exit(2); }
     }
     writeln!(w, "#SUMMARY\tevaluations={}\tdistinct_nontrivial={}\tgrammars={}\trejected={}\tok={}\tpanics={}\tlimits={}", n, nontriv, grammars, rejected, oks, panics, limits).unwrap();
 }
